@@ -1930,3 +1930,31 @@ Proof.
   - eapply IH; eassumption.
 Qed.
 End LeftPartsMin.
+
+(* ================================================================== the table is a function of the term list as a
+   MULTISET of values: order is irrelevant and k copies of a term contribute k times its factor *)
+From Coq Require Import Permutation.
+Section Multiset.
+Variable R : CRing.
+Variable iszero : R -> bool.
+Hypothesis iszero_sound : forall x, iszero x = true -> x = r0 R.
+Add Ring RRm : (rth R).
+
+Lemma lsum_perm {A} (l1 l2 : list A) (f : A -> R) : Permutation l1 l2 -> SymMpo.lsum R l1 f = SymMpo.lsum R l2 f.
+Proof. induction 1; cbn [SymMpo.lsum]; try congruence; ring. Qed.
+Theorem coeffT_perm (t1 t2 : table R) s : Permutation t1 t2 -> coeffT R t1 s = coeffT R t2 s.
+Proof. intros H. unfold coeffT. apply lsum_perm, H. Qed.
+Theorem table_multiset (t1 t2 : table R) s :
+  Permutation t1 t2 -> coeffT R (dedup R iszero t1) s = coeffT R (dedup R iszero t2) s.
+Proof. intros H. rewrite !(dedup_den R iszero iszero_sound). apply coeffT_perm, H. Qed.
+(* n-fold sum *)
+Definition nmul (n : nat) (x : R) : R := SymMpo.lsum R (seq 0 n) (fun _ => x).
+Theorem dedup_multiplicity (k : key) (f : R) (n : nat) (t : table R) s :
+  coeffT R (dedup R iszero (repeat (k, f) n ++ t)) s
+  = radd R (nmul n (if keqb k s then f else r0 R)) (coeffT R t s).
+Proof.
+  rewrite (dedup_den R iszero iszero_sound). unfold coeffT. rewrite (lsum_app R). f_equal.
+  unfold nmul. generalize 0 as m. induction n as [|n IH]; intros m; cbn [repeat seq SymMpo.lsum fst snd]; [reflexivity|].
+  rewrite (IH (S m)). reflexivity.
+Qed.
+End Multiset.
